@@ -335,3 +335,31 @@ let () = register "machine" (fun args ->
          end
        with Unsup why -> "unsupported:" ^ why ^ "\t-\t0\t-")
     | _ -> "error\targs")
+
+
+(* ref <fuel> <hex sexp items>  ->  outcome TAB hex stdout      (the independent reference semantics, Ref.v) *)
+let show_rerr = function
+  | ETypeError -> "type" | EUnbound -> "unbound" | ENotBound -> "notbound" | EArith -> "arith" | EArity -> "arity" | ENoMatch -> "nomatch"
+
+let () = register "ref" (fun args ->
+    match args with
+    | [fuel; hexsrc] ->
+      (try
+         reset_syms ();
+         let items = parse_sexps (unhex hexsrc) in
+         let (p, exprs) = conv_items items in
+         if List.exists has_unsupported_expr exprs
+         || List.exists (fun (_, fd) -> List.exists has_unsupported_expr fd.fbody) p.funs
+         then "unsupported\t-"
+         else begin
+           let (r, s) = ref_run p (nat_of_int (int_of_string fuel)) exprs in
+           let outs = String.concat "" (List.rev_map utf8_of_chars s.printed) in
+           (match r with
+            | Ok v -> "ok:" ^ hex (utf8_of_chars (display v))
+            | Ctl (CErr e) -> "error:" ^ show_rerr e
+            | Ctl _ -> "unsupported:control-outside-loop"
+            | OutOfFuel -> "outoffuel"
+            | Unsupp -> "unsupported") ^ "\t" ^ hex outs
+         end
+       with Unsup why -> "unsupported:" ^ why ^ "\t-")
+    | _ -> "error\targs")
